@@ -29,6 +29,38 @@ HOST_NAMES = ("fields args record data params key value name id input_id populat
               "tuple int float print type object input open range sum min max abs all any repr hash format exec eval compile globals locals "
               "vars dir getattr setattr isinstance Exception ValueError TypeError e E math random functools itertools pyab_experiment binning "
               "typing copy sys os re json logging logger log warnings debug msg message text source expr term predicate cond group groups").split()
+_HOST_CACHE = []
+
+
+def host_names():
+    """HOST_NAMES plus every identifier that occurs in the text the implementation's OWN generator emits right now (both
+    layouts) for a probe program — locals, parameters and helpers that a change to the generator introduces are thereby tried as
+    field names, experiment names and extra keyword arguments on the next run.  Python reserved words are left out (finding family K1)."""
+    if _HOST_CACHE:
+        return _HOST_CACHE[0]
+    import io
+    import keyword
+    import tokenize
+    names = set()
+    probe = ('def probe_exp { salt: "s" splitters: fa, fb if fc == 1 and fd in (fe, (1, 2)) { return "a" weighted 1, 2 weighted 1.5 } '
+             'else if not fc > 2 { return "b" weighted 1 } else { return "c" weighted 1 } }')
+    try:
+        from pyab_experiment.utils.wraper_functions import generate_code, parse_source
+        from pyab_experiment.codegen.python.python_generator import PythonCodeGen
+        texts = [generate_code(probe, False), generate_code(probe, True), PythonCodeGen(parse_source(probe), expose_experiment_variant_function=False).generate()]
+        for code in texts:
+            for tok in tokenize.generate_tokens(io.StringIO(code).readline):
+                if tok.type == tokenize.NAME:
+                    names.add(tok.string)
+    except Exception:  # noqa
+        pass
+    names -= {"probe_exp", "fa", "fb", "fc", "fd", "fe"}
+    dyn = sorted(n for n in names if not keyword.iskeyword(n) and n not in K1_NAMES and n not in DSL_WORDS)
+    _HOST_CACHE.append(list(dict.fromkeys(HOST_NAMES + dyn)))
+    return _HOST_CACHE[0]
+
+
+DSL_WORDS = {"def", "salt", "splitters", "if", "else", "weighted", "return", "and", "or", "not", "in", "elif"}
 # plain identifiers for checks that are not about identifier spelling
 PLAIN_IDENTS = ["x", "y", "a", "b", "u", "n", "uid", "age", "plan", "tier", "zone", "k", "m", "p", "q", "w", "z",
                 "user", "group", "country", "device", "level", "score", "bucket", "cohort", "flag"]
